@@ -66,8 +66,23 @@ fn reading_order(dir: &Path, sp: &SpecP) -> Vec<String> {
     rot
 }
 
+/// does the file system of the work directory report birth times at all? (where it does not, the
+/// code under test falls back to the modification time by design, and these cases say nothing)
+fn birth_times_available(ctx: &Ctx) -> bool {
+    let _ = std::fs::create_dir_all(&ctx.work);
+    let p = ctx.work.join(format!("btime-probe-{}", std::process::id()));
+    let ok = std::fs::write(&p, b"x").is_ok() && std::fs::metadata(&p).and_then(|m| m.created()).is_ok();
+    let _ = std::fs::remove_file(&p);
+    ok
+}
+
 pub fn execute(ctx: &mut Ctx, lines: &[String]) -> Vec<String> {
     let case_id = tokens(&lines[0])[2..].join(" ");
+    if !birth_times_available(ctx) {
+        ctx.report.count("realclock.no-birth-times");
+        ctx.report.inconclusive.push((case_id, "the file system of the work directory does not report birth times".into()));
+        return lines.iter().map(|l| if l.starts_with("CASE") { header_answer(l) } else { "timing-miss".to_string() }).collect();
+    }
     let mut why = String::new();
     for attempt in 0..3 {
         match attempt_once(ctx, lines, &case_id, attempt) {
